@@ -126,7 +126,12 @@ def gen_file_frame(rng):
             if rng.random() < 0.3:
                 cols[nm] = [None if rng.random() < 0.3 else float(x) for x in cols[nm]]
         elif k == 'real':
-            cols[nm] = [rng.choice([0.5, 1.25, -3.0, 10.0, None]) for _ in range(n)]
+            if rng.random() < 0.5:
+                cols[nm] = [rng.choice([0.5, 1.25, -3.0, 10.0, None]) for _ in range(n)]
+            else:
+                # values that need all 16-17 significant digits to be written exactly
+                cols[nm] = [rng.choice([2 / 3, 4 / 3, 0.1 + 0.2, -1 / 3, 1e-7 / 3, 1e15 / 7, rng.random(),
+                                        rng.uniform(-1000, 1000), None]) for _ in range(n)]
         elif k == 'bool':
             cols[nm] = [rng.random() < .5 for _ in range(n)]
         else:
